@@ -80,6 +80,8 @@ def node_s(depth):
         "seq": st.integers(0, 100),
         # a severed member makes the node's manifest bytes depend on the digest refresh done before it is hashed/embedded
         "severed": st.sampled_from([None, None, "suit-payload-fetch", "suit-text"]),
+        # the node's own (to be recomputed) wrapper digest written in one of the file notations
+        "wrapper_digest": st.sampled_from([None, None, "file", "file_direct", "raw"]),
         "sev_alg": G.hash_s,
     }
     if depth == 0:
@@ -204,8 +206,13 @@ class Builder:
             if p:
                 seq.append({"suit-directive-override-parameters": p})
                 exp["blocks"].append(e)
+        wd = {"suit-digest-algorithm-id": node["alg"]}
+        if node.get("wrapper_digest"):
+            self.forms.add("wrapper-digest:" + node["wrapper_digest"])
+            wpath, wdata = self.put_file(os.path.join(sub, "wd"), {"name": "digest.bin", "content": ["rand", G.DIGEST_LEN[node["alg"]], node["seq"]], "abs": True})
+            wd["suit-digest-bytes"] = {"raw": wdata.hex()} if node["wrapper_digest"] == "raw" else {node["wrapper_digest"]: wpath}
         e = {
-            "suit-authentication-wrapper": {"SuitDigest": {"suit-digest-algorithm-id": node["alg"]}},
+            "suit-authentication-wrapper": {"SuitDigest": wd},
             "suit-manifest": {"suit-manifest-version": 1, "suit-manifest-sequence-number": node["seq"], "suit-common": {}, "suit-install": seq},
         }
         if node.get("severed"):
@@ -413,7 +420,7 @@ def finalize(ctx, m, ev):
     c = m["counters"]
     ev["coverage"]["excluded_known"] = {"F9": c.get("excluded_known:F9", 0)}
     need = ["digest:file", "digest:file_direct", "digest:raw", "digest:envelope", "size:file", "size:file_direct", "size:raw", "size:envelope",
-            "payload:path", "payload:hex", "dep:inline", "dep:path", "depth:3", "style:abs", "style:rel", "style:hexlike-name", "route:json", "route:yaml"]
+            "payload:path", "payload:hex", "dep:inline", "dep:path", "wrapper-digest:file", "wrapper-digest:file_direct", "wrapper-digest:raw", "depth:3", "style:abs", "style:rel", "style:hexlike-name", "route:json", "route:yaml"]
     for n in need:
         if not c.get(n):
             raise boot.HarnessError(f"interesting class {n} is empty")
